@@ -5,11 +5,12 @@ Tie: correspondence between the model's executable definitions (Graph/GraphRun.v
 and dasp_graph::Processor over petgraph Graph / StableGraph on the same build-and-process scripts."""
 import json, os, itertools
 import framework as F
+import cov_regions
 
 PROP = "C09"
 META = dict(
     technique="Coq proof about a model of petgraph's DfsPostOrder + dasp_graph::process (all multigraphs) + coqc-evaluated model vs crate correspondence",
-    text="Machine-checked (Coq 8.16.1): a model of petgraph-0.5.1's DfsPostOrder (stack, discovered, finished; as implemented) run over the edge-reversed multigraph (node slots with vacancies, edge list, newest-edge-first neighbours) and of dasp_graph::process on top of it. Proved for every multigraph (cycles, self-loops, parallel edges, vacancies) and output node: termination without panic, invoked set = nodes with a path to the output, each once, inputs = one per incoming edge from another node carrying that node's current buffers, post-order and equality with the functional evaluation when the upstream subgraph is acyclic, independence from the processor's history, sources/sinks = live nodes without incoming/outgoing edges. The model is tied to the crate by running its executable definitions inside coqc on the same scripts (build a Graph/StableGraph, remove nodes, several process calls on one Processor, sources/sinks) and comparing the invocation log (order, input identities in order, values seen), final buffers, call counts, sources and sinks exactly.",
+    text="Machine-checked (Coq 8.16.1): a model of petgraph-0.5.1's DfsPostOrder (stack, discovered, finished; as implemented) run over the edge-reversed multigraph (node slots with vacancies, edge list, newest-edge-first neighbours) and of dasp_graph::process on top of it. Proved for every multigraph (cycles, self-loops, parallel edges, vacancies) and output node: termination without panic, invoked set = nodes with a path to the output, each once, inputs = one per incoming edge from another node carrying that node's current buffers, post-order and equality with the functional evaluation when the upstream subgraph is acyclic, independence from the processor's history, sources/sinks = live nodes without incoming/outgoing edges; the NodeData constructors (new, new1, new2, boxed, boxed1, boxed2) store the given node with the given buffers resp. one / two silent buffers, so a node built by them presents exactly those to its neighbours (c09_node_data_constructors, c09_constructed_node_in_graph). The model is tied to the crate by running its executable definitions inside coqc on the same scripts (build a Graph/StableGraph, remove nodes, nodes built by every NodeData constructor, several process calls on one Processor, sources/sinks) and comparing the invocation log (order, input identities in order, values seen), final buffers, call counts, sources and sinks exactly.",
     note="Trusted: Coq kernel; the hand-written model of petgraph's containers (adjacency order, vacancies, free list, FixedBitSet length) and of the DFS, validated only through the correspondence; harness + python generators. Axioms: none.",
     design="6/C09")
 HEADER = "From Dasp Require Import Graph.GraphRun."
@@ -238,6 +239,7 @@ def gen_exhaustive(rng, tier):
     # every short-hand constructor at every position of every graph with <= 2 edges over <= 3 nodes (the other nodes
     # alternate between the remaining constructors and explicit buffer lists), every output node, sources/sinks;
     # on a StableGraph also a node built by the constructor into a re-used vacant slot
+    nctor = 0
     for nn in (1, 2, 3):
         pairs = [(a, b) for a in range(nn) for b in range(nn)]
         for ne in range(0, 3):
@@ -249,8 +251,9 @@ def gen_exhaustive(rng, tier):
                         ops = nodes + [["E", a, b] for a, b in seq]
                         for o in range(nn):
                             ops += [["P", o], ["B"]]
-                        kind = "GS"[(c + pos + ne + len(items)) % 2]
-                        if kind == "S" and (c + pos + ne) % 3 == 0:
+                        nctor += 1
+                        kind = "GS"[nctor % 2]
+                        if kind == "S" and (nctor // 2) % 2 == 0:
                             ops += [["R", pos], ["C", c, 1], ["B"], ["P", pos], ["B"]]
                         items.append(build(dict(kind=kind, fam="exhctor", ops=ops + [["Q"]])))
     # StableGraph with a vacancy: nn live nodes + one removed slot at each position, <= 3 edges
@@ -401,6 +404,24 @@ def main(rep, tier, seed):
                 feat_hist[f] = feat_hist.get(f, 0) + 1
         if allf & NONTRIVIAL:
             nontriv.add(it["line"])
+    ctor_hist, ctor_feeding = {}, 0
+    for it in items:
+        cslots = set()
+        sh2 = Shape()
+        for o in it["ops"]:
+            if o[0] == "C":
+                ctor_hist[CTOR_NAMES[o[1]]] = ctor_hist.get(CTOR_NAMES[o[1]], 0) + 1
+                cslots.add(sh2.add_node(CTOR_NBUF[o[1]]))
+            elif o[0] == "N":
+                ctor_hist["NodeData::boxed (explicit buffer list)"] = ctor_hist.get("NodeData::boxed (explicit buffer list)", 0) + 1
+                cslots.discard(sh2.add_node(o[2]))
+            elif o[0] == "E":
+                if o[1] in cslots and o[1] != o[2]:
+                    ctor_feeding += 1      # a node made by a short-hand constructor is presented as an input
+                sh2.add_edge(o[1], o[2])
+            elif o[0] == "R":
+                sh2.remove(o[1])
+                cslots.discard(o[1])
     invocations = sum(o.count(";11 ") for o in outl)
     aborted_calls, calls_after_abort = 0, 0
     for it, o in zip(items, outl):
@@ -429,14 +450,16 @@ def main(rep, tier, seed):
         rc, out, _ = F.run_bin(binpath, [small["line"]])
         _, model = F.coq_eval("c09", HEADER, f"run_case ({small['coq']})")
         rep.violation(f"case{idx}", {
-            "kind": "model/implementation disagreement: dasp_graph::Processor::process / sources / sinks do not behave as the proved model (invocation order, inputs, buffers, sources or sinks differ)",
+            "kind": "model/implementation disagreement: dasp_graph::Processor::process / sources / sinks / the NodeData constructors do not behave as the proved model (invocation order, inputs, buffers, what a constructor made, sources or sinks differ)",
             "case": {"kind": small["kind"], "ops": small["ops"]},
             "harness_line": small["line"], "implementation_observations": out, "model_observations": model[-3000:],
             "original_case_index": idx, "replay": "./check.py C09 --replay <this file>"})
     dist = {"families": fam_hist, "sizes": size_hist, "process_call_features": feat_hist, "process_calls": calls,
             "node_invocations_observed": invocations, "calls_aborted_by_node_panic": aborted_calls,
             "process_calls_after_an_aborted_call_same_processor": calls_after_abort, "panicking_calls_observed": panics,
-            "exhaustive_cases": len(exh), "random_cases": len(rnd), "corpus_cases": len(corpus)}
+            "exhaustive_cases": len(exh), "random_cases": len(rnd), "corpus_cases": len(corpus),
+            "nodes_by_constructor": ctor_hist, "edges_out_of_a_short_hand_constructed_node": ctor_feeding,
+            "source_regions_never_entered": cov_regions.load(PROP)}
     samples = [items[i]["line"] for i in (len(corpus), len(corpus) + len(exh) // 2, len(items) - 1)] if items else []
     return finish(rep, info, len(items), len(nontriv) if not errors else 0, dist, samples, bad)
 
@@ -450,9 +473,9 @@ def finish(rep, info, n, nontriv, dist, samples, bad=()):
                                            "modelled, not verified: petgraph 0.5.1 Graph/StableGraph containers (adjacency lists as an edge list read newest-first, vacancies, free list, node_bound), FixedBitSet as a set plus a length, the DfsPostOrder loop transcribed from visit/traversal.rs:199-220; raw-pointer Inputs as the neighbour's buffers at call time"],
         "theorems": th, "axioms_reported": info.get("axioms", []),
         "evaluations": n, "distinct_nontrivial": nontriv,
-        "rule": "exhaustive: every edge sequence over <= 3 nodes with <= 4 edges (self-loops, doubled edges) x every output node, Graph and StableGraph, plus StableGraph with one vacant slot at every position, plus (<= 2 edges quick, <= 3 thorough) a node WITHOUT output buffers at every position (also as the output node); nodes have 0, 1 or 2 output buffers (1 in 6 none, 1 in 6 two) in every family; random: graphs to 40 nodes / 120 edges, DAG and cyclic, 0-5 removed nodes (slots re-used by later add_node), three consecutive process calls on one Processor, occasional invalid output node, in 1 of 3 random cases one or two nodes armed to panic once inside Node::process (unwinding caught, same Processor used again); exhaustive (<= 2 edges quick, <= 3 thorough): every armed node x every output node of the aborted call x a further call for every output node; non-trivial = some process call whose upstream subgraph has a cycle, a parallel edge, a self-loop or a node with two paths to the output, or whose graph has a vacancy, or whose upstream subgraph contains a node without buffers, or a process call made on a processor whose previous call was aborted by a node panic",
+        "rule": "exhaustive: every edge sequence over <= 3 nodes with <= 4 edges (self-loops, doubled edges) x every output node, Graph and StableGraph, plus StableGraph with one vacant slot at every position, plus (<= 2 edges quick, <= 3 thorough) a node WITHOUT output buffers at every position (also as the output node); nodes have 0, 1 or 2 output buffers (1 in 6 none, 1 in 6 two) in every family; half of the nodes with 1 or 2 buffers are built by the short-hand constructors NodeData::new1 / new2 / boxed1 / boxed2 (what the constructor made -- number of buffers, all samples silent -- is observed before the harness writes into the buffers, and the model computes both from its definition of the constructor), the others by NodeData::boxed with an explicit buffer list; exhaustive (<= 2 edges): every short-hand constructor at every node position x every output node, on StableGraph also into a re-used vacant slot; random: graphs to 40 nodes / 120 edges, DAG and cyclic, 0-5 removed nodes (slots re-used by later add_node), three consecutive process calls on one Processor, occasional invalid output node, in 1 of 3 random cases one or two nodes armed to panic once inside Node::process (unwinding caught, same Processor used again); exhaustive (<= 2 edges quick, <= 3 thorough): every armed node x every output node of the aborted call x a further call for every output node; non-trivial = some process call whose upstream subgraph has a cycle, a parallel edge, a self-loop or a node with two paths to the output, or whose graph has a vacancy, or whose upstream subgraph contains a node without buffers, or a process call made on a processor whose previous call was aborted by a node panic",
         "samples": samples, "input_distribution": dist, "disagreements": len(bad),
-        "explanation": "theorems: for all multigraphs and output nodes (see props/C09.v); tie: the model's executable definitions run by coqc on the same scripts as the real crate; invocation order (logged inside Node::process), number of buffers each input shows, input identities in order, values seen, final buffers, call counts, buffer counts, sources and sinks compared exactly",
+        "explanation": "theorems: for all multigraphs and output nodes (see props/C09.v); tie: the model's executable definitions run by coqc on the same scripts as the real crate; invocation order (logged inside Node::process), number of buffers each input shows, input identities in order, values seen, final buffers, call counts, buffer counts, what each short-hand NodeData constructor made, sources and sinks compared exactly",
     }
     return rep.finish("proof", cov, ["petgraph's containers are modelled (edge order, vacancies, free list), not verified",
                                     "node identities are read from a sentinel each instrumented node keeps in its buffer; usize as unbounded nat"])
